@@ -138,7 +138,8 @@ func c05(c *orch.Ctx) (*report.Result, error) {
 	jobs := make([]*job, len(projects))
 	orch.ParallelMap(len(projects), 4, func(i int) {
 		p := projects[i]
-		rp := BuildRouterProject(c, l, bin, p, RouterOpts{EnumValid: i%3 == 0})
+		topEnum := i%4 == 1
+		rp := BuildRouterProject(c, l, bin, p, RouterOpts{EnumValid: i%3 == 0, TopLevelEnum: topEnum})
 		j := &job{rp: rp}
 		r := rng.New(c.Seed, "C05-req", p.Name)
 		k := 0
@@ -164,6 +165,10 @@ func c05(c *orch.Ctx) (*report.Result, error) {
 				add(rr, reqPlan{Class: "typical", IllTyped: pr.GoName})
 				if pr.Validate != "" {
 					add(rr, reqPlan{Class: "typical", Violate: pr.GoName})
+				}
+				if topEnum && pr.In != "body" {
+					// validateTopLevelOnlyEnum: a top-level enum parameter only converts from one of its constants
+					add(rr, reqPlan{Class: "typical", BadEnum: pr.GoName})
 				}
 				if pr.In == "body" {
 					add(rr, reqPlan{Class: "typical", BadBody: true})
